@@ -235,6 +235,21 @@ def processHeaders (p : Params) : List Hdr → List Hdr → List Hdr × List Ver
     let r := processHeaders p (if v = .ok then h :: chain else chain) hs
     (r.1, v :: r.2)
 
+/-- `ProcessBlockHeader` with explicit parents: `known` are the header chains known so far (tip-first; entry 0
+    is the genesis chain), each offered header names its parent by index; an accepted header adds a new known
+    chain (main or side branch alike), a rejected one adds nothing. -/
+def processTree (p : Params) : List (List Hdr) → List (Nat × Hdr) → List (List Hdr) × List Verdict
+  | known, [] => (known, [])
+  | known, (i, h) :: hs =>
+    match known[i]? with
+    | none =>
+      let r := processTree p known hs
+      (r.1, .panic :: r.2)               -- unknown parent (ErrPreviousBlockUnknown; never generated)
+    | some chain =>
+      let v := headerVerdict p chain h
+      let r := processTree p (if v = .ok then known ++ [h :: chain] else known) hs
+      (r.1, v :: r.2)
+
 /-- the loop of `calcEasiestDifficulty`: `for durationVal > 0 && newTarget < powLimit` -/
 def easiestLoop (adj maxSpan powLimit : Int) : Nat → Int → Int → Int
   | 0, _, t => t
